@@ -205,6 +205,18 @@ func (e *fnEnc) call(c *blockCtx, in ssa.Instruction, cc *ssa.CallCommon) []Term
 			}
 		}
 	}
+	if name == "" {
+		for _, cl := range e.ctr.Get("callsite") {
+			f := strings.Fields(cl.Text)
+			if len(f) >= 3 && f[1] == "cases" && f[0] == valLabel(cc.Value) {
+				var cands []string
+				for _, c := range strings.Split(strings.Join(f[2:], ""), "|") {
+					cands = append(cands, qualifyFuncName(e.pkg, e.resolvePkgAlias(e.pkg, c)))
+				}
+				return e.applyCases(c, in, e.val(cc.Value), cands, args, argTypes, cc)
+			}
+		}
+	}
 	ctr := e.eng.contracts[name]
 	if ctr == nil {
 		return e.uncontractedCall(c, in, name, sig)
@@ -1002,4 +1014,97 @@ func blockReaches(from, to *ssa.BasicBlock) bool {
 		stack = append(stack, b.Succs...)
 	}
 	return false
+}
+
+// applyCases handles a call through a function value that is known (by the
+// caller's precondition) to be one of several contracted functions: each
+// candidate's precondition is an obligation under "the value is this function",
+// the frame of the first candidate is applied, and each candidate's
+// postcondition is assumed under the same condition. Bound method values pass
+// their receiver (funcrecv) as first argument.
+func (e *fnEnc) applyCases(c *blockCtx, in ssa.Instruction, fv Term, cands []string, args []Term, argTypes []types.Type, cc *ssa.CallCommon) []Term {
+	sig := cc.Signature()
+	pre := c.st.clone()
+	type cand struct {
+		name string
+		ctr  *FuncContract
+		cond Term
+		vars map[string]SVal
+		sig  *types.Signature
+	}
+	var cs []cand
+	for _, n := range cands {
+		ctr := e.eng.contracts[n]
+		fn := e.eng.funcs[n]
+		if ctr == nil || fn == nil {
+			e.fail("callsite cases: no contract or function for %s", n)
+		}
+		cond := eq(app(SInt, e.funcidFun(), fv), intLit(int64(e.eng.funcID(n))))
+		as := args
+		ats := argTypes
+		if len(fn.Params) == len(args)+1 {
+			// method value: receiver bound in the closure
+			as = append([]Term{app(SInt, e.funcrecvFun(), fv)}, args...)
+			ats = append([]types.Type{fn.Params[0].Type()}, argTypes...)
+		}
+		if len(fn.Params) != len(as) {
+			e.fail("callsite cases: %s takes %d arguments, call has %d", n, len(fn.Params), len(as))
+		}
+		vars := map[string]SVal{}
+		for i, p := range fn.Params {
+			vars[p.Name()] = SVal{t: as[i], typ: ats[i]}
+		}
+		cs = append(cs, cand{n, ctr, cond, vars, fn.Signature})
+	}
+	ord := e.callOrdinal(in, "")
+	for _, cd := range cs {
+		env := &specEnv{enc: e, vars: cd.vars, st: pre, old: pre, pkg: cd.ctr.Pkg}
+		for i, cl := range cd.ctr.Get("requires") {
+			g := e.evalBool(cl.E, env)
+			e.obligation("pre", fmt.Sprintf("%s@%s#%d:%s", shortCallee(cd.name), valLabel(cc.Value), ord, clauseLabel(cl, i)), and(c.reach, cd.cond), g, cl.Text, e.posOf(in), false)
+		}
+	}
+	// frame of the first candidate (all candidates must declare the same assigns)
+	first := cs[0]
+	for _, cd := range cs[1:] {
+		if fmt.Sprint(assignTexts(cd.ctr)) != fmt.Sprint(assignTexts(first.ctr)) {
+			e.fail("callsite cases: %s and %s declare different assigns", first.name, cd.name)
+		}
+	}
+	preEnv := &specEnv{enc: e, vars: first.vars, st: pre, old: pre, pkg: first.ctr.Pkg}
+	e.applyAssigns(c, first.ctr, preEnv)
+	res := e.resultTerms(c, in, sig, "call.fn")
+	for _, cd := range cs {
+		post := &specEnv{enc: e, vars: map[string]SVal{}, st: c.st, old: pre, pkg: cd.ctr.Pkg}
+		for k, v := range cd.vars {
+			post.vars[k] = v
+		}
+		rn := resultNames(cd.sig)
+		for i, r := range res {
+			rt := sig.Results().At(i).Type()
+			post.vars[rn[i]] = SVal{t: r, typ: rt}
+			post.vars[fmt.Sprintf("result%d", i)] = SVal{t: r, typ: rt}
+			if len(res) == 1 {
+				post.vars["result"] = SVal{t: r, typ: rt}
+			}
+		}
+		for _, cl := range cd.ctr.Get("ensures") {
+			e.assert(imp(and(c.reach, cd.cond), e.evalBool(cl.E, post)))
+		}
+		if cd.ctr.Assumed {
+			e.assume("assumed contract: " + shortCallee(cd.name) + " (" + cd.ctr.AssumeWhy + ")")
+		}
+	}
+	for i, r := range res {
+		e.assert(e.existsAt(r, sig.Results().At(i).Type(), c.st.alloc))
+	}
+	return res
+}
+
+func assignTexts(c *FuncContract) []string {
+	var out []string
+	for _, cl := range c.Get("assigns") {
+		out = append(out, cl.Text)
+	}
+	return out
 }
